@@ -283,11 +283,15 @@ def splrep(x, y, s=0, k=3, **kw):
         raise TypeError('m > k must hold')
     eng = engine()
     # a spline is determined by its data: the same points give the same symbols
-    key = (k, str(s), tuple(str(_zr(v)) for v in xs), tuple(str(_zr(v)) for v in ys))
+    # (keyed by the hash-consed term identities, not by their text: printing a large z3 term
+    # can take minutes; the terms are kept alive alongside so that the ids stay valid)
+    zx = [_zr(v) for v in xs]
+    zy = [_zr(v) for v in ys]
+    key = (k, str(s), tuple(t.get_id() for t in zx), tuple(t.get_id() for t in zy))
     ids = eng.__dict__.setdefault('_spline_ids', {})
     if key not in ids:
-        ids[key] = len(ids) + 1
-    ident = ids[key]
+        ids[key] = (len(ids) + 1, zx, zy)
+    ident = ids[key][0]
     knots = [xs[0]] * (k + 1) + xs[2:-2] * (1 if k == 3 else 0) + (xs[1:-1] if k == 1 else []) + [xs[-1]] * (k + 1)
     tck = TCK((knots, None, k))
     tck_info = {'x': xs, 'y': ys, 's': s, 'k': k, 'id': ident}
